@@ -49,6 +49,14 @@ Theorem restore_resumes_positions_kinesis_reader : forall r,
 Proof. intro r. split; [apply kinesis_checkpoint_complete | apply kinesis_restore_resumes]. Qed.
 Print Assumptions restore_resumes_positions_kinesis_reader.
 
+(* Job.start: whatever is published while the assembly is being deployed (cur_after_deploy arbitrary), the source
+   splitter is started from the job checkpoint the operators were deployed from *)
+Theorem restore_resumes_positions_same_checkpoint : forall cur_at_read cur_after_deploy,
+  fst (job_start cur_at_read cur_after_deploy) = snd (job_start cur_at_read cur_after_deploy) /\
+  fst (job_start cur_at_read cur_after_deploy) = cur_at_read.
+Proof. intros. split; reflexivity. Qed.
+Print Assumptions restore_resumes_positions_same_checkpoint.
+
 (* ---- restore_resumes_positions ---- *)
 
 (* runner: a split assigned with cursor c0 (e.g. the checkpointed position) never emits a record below c0 *)
